@@ -4,6 +4,7 @@ import (
 	"encoding/json"
 	"fmt"
 	"strconv"
+	"strings"
 
 	"pgregory.net/rapid"
 
@@ -23,6 +24,9 @@ type ValueCfg struct {
 	SafeKeys bool
 	// IntegralFloatsForInt lets int positions receive tokens like 3.0 / 1e2.
 	IntegralFloatsForInt bool
+	// NoLongDigitFloats leaves out float tokens written as 20 or more plain
+	// digits (exclusion for a known finding).
+	NoLongDigitFloats bool
 	// PlainNumbers restricts numbers to forms that survive float64
 	// round trips (no huge exponents, ints within 2^53 for floats).
 	PlainNumbers bool
@@ -47,6 +51,18 @@ func GenIntToken(t *rapid.T, plain bool) string {
 		return rapid.SampledFrom(hostileInts).Draw(t, "intTok")
 	}
 	return strconv.FormatInt(rapid.Int64Range(-1000, 100000).Draw(t, "int"), 10)
+}
+
+// LongDigits reports a number token with >= 20 digits before any '.', 'e'.
+func LongDigits(tok string) bool {
+	n := 0
+	for _, c := range strings.TrimPrefix(tok, "-") {
+		if c < '0' || c > '9' {
+			break
+		}
+		n++
+	}
+	return n >= 20
 }
 
 func GenFloatToken(t *rapid.T, plain bool) string {
@@ -133,7 +149,11 @@ func (u *Universe) GenValue(t *rapid.T, ty Ty, cfg *ValueCfg) any {
 		}
 		return json.Number(GenIntToken(t, cfg.PlainNumbers))
 	case "float":
-		return json.Number(GenFloatToken(t, cfg.PlainNumbers))
+		tok := GenFloatToken(t, cfg.PlainNumbers)
+		if cfg.NoLongDigitFloats && LongDigits(tok) {
+			tok = "1.2345678901234568e20"
+		}
+		return json.Number(tok)
 	case "bool":
 		return rapid.Bool().Draw(t, "bool")
 	case "string", "file", "path":
@@ -194,7 +214,11 @@ func (u *Universe) genUntyped(t *rapid.T, cfg *ValueCfg, depth int, mustObj bool
 	case 2:
 		return json.Number(GenIntToken(t, cfg.PlainNumbers))
 	case 3:
-		return json.Number(GenFloatToken(t, cfg.PlainNumbers))
+		tok := GenFloatToken(t, cfg.PlainNumbers)
+		if cfg.NoLongDigitFloats && LongDigits(tok) {
+			tok = "1.2345678901234568e20"
+		}
+		return json.Number(tok)
 	case 4:
 		return GenString(t, cfg.PlainStrings)
 	case 5:
